@@ -6,9 +6,11 @@
     [tperm] = same tree up to the order of every neighbour list, [bsplits]/[splits_equiv] =
     branches of the unrooted tree up to exchanging the two sides of a branch). *)
 From Coq Require Import String ZArith QArith Bool Arith List Permutation.
-From GT Require Import Base.UTree Spec.Obs Model.Reroot Spec.Unrooted
+From GT Require Import Base.UTree Spec.Obs Model.Reroot Model.Outgroup Spec.Unrooted
      Proofs.RerootBase Proofs.Reroot Proofs.Unroot Proofs.Reorder Proofs.Splits Proofs.USplits
-     Proofs.C05Main.
+     Proofs.C05Main
+     Proofs.OutgroupBase Proofs.OutgroupCut Proofs.OutgroupKeep Proofs.OutgroupLCA Proofs.OutgroupClade
+     Proofs.OutgroupMain Proofs.OutgroupMidpoint Proofs.OutgroupWitness.
 Import ListNotations.
 Local Close Scope Q_scope.
 
@@ -261,3 +263,176 @@ Example C05_example_reorder :
   utree_eqb (sort_by_tips c05_tree) c05_tree = false.
 Proof. exact c05_example_reorder. Qed.
 Print Assumptions C05_example_reorder.
+
+(** * (d) rooting on an outgroup: Model/Outgroup.v [reroot_outgroup remove strict t names]
+    (RerootOutGroup + LeastCommonAncestorUnrooted/Recur), proofs in Proofs/Outgroup*.v.
+    [group (unroot t) names] = the requested names that are tips, without repetition;
+    [side_of t G] = some branch of [t] separates exactly the tips [G] from the others;
+    [half_edge e] = what the code writes on the two new root branches: half the length and the
+    support of [e] if its length is > 0, otherwise NO length and NO support. *)
+
+(** the requested names that count *)
+Theorem C05_group_In :
+  forall t1 names x, wf t1 = true -> 2 <= degree t1 ->
+    (In x (group t1 names) <-> In x names /\ In x (leaves t1) /\ x <> ""%string).
+Proof. exact group_In. Qed.
+Print Assumptions C05_group_In.
+
+(** inserting a node in the middle of a branch and re-rooting on it: a root with exactly two
+    children, same leaves, and the same tip-to-tip path lengths for every weight that gives the
+    two new branches together the weight of the branch that was cut *)
+Theorem C05_cut_and_root :
+  forall w t2 pp k cf eP eC P e ch,
+    wf t2 = true -> 2 <= degree t2 ->
+    node_at t2 pp = Some P -> nth_error (uslots P) k = Some (Some (e, ch)) ->
+    (w eP + w eC == w e)%Q ->
+    exists t4 R,
+      cut_and_root t2 pp k cf eP eC = Some t4 /\
+      t4 = UNode "" [] (if cf then [Some (eC, cut_child ch); Some (eP, R)]
+                        else [Some (eP, R); Some (eC, cut_child ch)]) /\
+      wf t4 = true /\ Permutation (leaves t4) (leaves t2) /\
+      dists_equiv (pairdists w t4) (pairdists w t2).
+Proof. exact cut_and_root_spec. Qed.
+Print Assumptions C05_cut_and_root.
+
+(** (i) without removal: well-formed, root with two neighbours, same leaves, same path lengths
+    (an absent length counting 0) *)
+Theorem C05_outgroup_preserves :
+  forall strict t names t',
+    wf t = true -> 2 <= degree t -> (rooted t = true -> root_has_inner_child t = true) ->
+    reroot_outgroup false strict t names = Ok t' ->
+    wf t' = true /\ degree t' = 2 /\ Permutation (leaves t') (leaves t) /\
+    dists_equiv (pairdists len0 t') (pairdists len0 t).
+Proof. exact reroot_outgroup_keep_preserves. Qed.
+Print Assumptions C05_outgroup_preserves.
+
+(** what LeastCommonAncestorRecur returns (on every subtree / on the whole tree) *)
+Theorem C05_lca_spec_sub :
+  forall grp, 0 < length grp -> forall s, wf_sub s = true ->
+    lca_spec grp s (lca_rec grp (length grp) s).
+Proof. exact lca_spec_sub. Qed.
+Print Assumptions C05_lca_spec_sub.
+
+Theorem C05_lca_spec_root :
+  forall grp, 0 < length grp -> forall t, wf t = true -> 2 <= degree t ->
+    lca_spec grp t (lca_rec grp (length grp) t).
+Proof. exact lca_spec_root. Qed.
+Print Assumptions C05_lca_spec_root.
+
+(** (iii) strict mode: a success implies that the requested tips are one side of a split of
+    the input tree; hence a non-monophyletic outgroup is refused (with or without removal) *)
+Theorem C05_outgroup_strict_side :
+  forall remove t names t',
+    wf t = true -> 2 <= degree t -> (rooted t = true -> root_has_inner_child t = true) ->
+    NoDup (leaves t) ->
+    reroot_outgroup remove true t names = Ok t' ->
+    side_of t (group (unroot t) names).
+Proof. exact outgroup_strict_side. Qed.
+Print Assumptions C05_outgroup_strict_side.
+
+Theorem C05_outgroup_strict_refuses :
+  forall remove t names,
+    wf t = true -> 2 <= degree t -> (rooted t = true -> root_has_inner_child t = true) ->
+    NoDup (leaves t) ->
+    ~ side_of t (group (unroot t) names) ->
+    exists m, reroot_outgroup remove true t names = Err m.
+Proof. exact outgroup_strict_refuses. Qed.
+Print Assumptions C05_outgroup_strict_refuses.
+
+(** (ii) strict mode, success: the new root has exactly two children, the leaves below one of
+    them are exactly the requested tips, and both root branches are [half_edge] of the branch
+    of the unrooted tree that separates the requested tips from the rest *)
+Theorem C05_outgroup_strict_clade :
+  forall t names t',
+    wf t = true -> 2 <= degree t -> (rooted t = true -> root_has_inner_child t = true) ->
+    NoDup (leaves t) ->
+    reroot_outgroup false true t names = Ok t' ->
+    let G := group (unroot t) names in
+    exists e e1 c1 e2 c2,
+      kids t' = [(e1, c1); (e2, c2)] /\ degree t' = 2 /\
+      e1 = half_edge e /\ e2 = half_edge e /\
+      side_of_e (unroot t) G e /\
+      (Permutation (leaves c1) G \/ Permutation (leaves c2) G).
+Proof. exact outgroup_strict_clade. Qed.
+Print Assumptions C05_outgroup_strict_clade.
+
+(** a separating branch of positive length is cut into two equal halves with its support *)
+Theorem C05_half_edge_pos :
+  forall e, (0 < elen e)%Q ->
+    (elen (half_edge e) == elen e * (1 # 2))%Q /\ esup (half_edge e) = esup e /\
+    (elen (half_edge e) + elen (half_edge e) == elen e)%Q.
+Proof. exact half_edge_pos. Qed.
+Print Assumptions C05_half_edge_pos.
+
+(** NOT so for a separating branch of length 0: "cut into two equal halves" is refuted, the two
+    root branches come back with neither length nor support (RerootOutGroup writes them only
+    `if length > 0`) *)
+Theorem C05_half_edge_nonpos : forall e, (elen e <= 0)%Q -> half_edge e = e0.
+Proof. exact half_edge_nonpos. Qed.
+Print Assumptions C05_half_edge_nonpos.
+
+Theorem C05_outgroup_zero_cut_refuted :
+  exists t names t' e,
+    wf t = true /\ 3 <= degree t /\ NoDup (leaves t) /\
+    reroot_outgroup false true t names = Ok t' /\
+    side_of_e (unroot t) (group (unroot t) names) e /\
+    (elen e == 0)%Q /\ (esup e == 4 # 5)%Q /\
+    Forall (fun p => (elen (fst p) == -1)%Q /\ (esup (fst p) == -1)%Q) (kids t') /\
+    ~ Forall (fun p => (elen (fst p) == elen e * (1 # 2))%Q) (kids t').
+Proof. exact outgroup_zero_cut_refuted. Qed.
+Print Assumptions C05_outgroup_zero_cut_refuted.
+
+(** * (e) midpoint rooting: Model/Outgroup.v [reroot_midpoint] (RerootMidPoint + MaxLengthPath) *)
+
+(** what holds: well-formed, root with two neighbours, same leaves *)
+Theorem C05_midpoint_wf_leaves :
+  forall t t',
+    wf t = true -> 2 <= degree t -> (rooted t = true -> root_has_inner_child t = true) ->
+    reroot_midpoint t = Ok t' ->
+    wf t' = true /\ degree t' = 2 /\ Permutation (leaves t') (leaves t).
+Proof. exact reroot_midpoint_wf_leaves. Qed.
+Print Assumptions C05_midpoint_wf_leaves.
+
+(** what does NOT hold (witnesses with branches of length 0; every branch has a length >= 0):
+    path lengths can change, ... *)
+Theorem C05_midpoint_dists_refuted :
+  exists t t',
+    wf t = true /\ 3 <= degree t /\ NoDup (leaves t) /\
+    (forall x, In x (bsplits t) -> (0 <= elen (fst (fst x)))%Q) /\
+    reroot_midpoint t = Ok t' /\
+    ~ dists_equiv (pairdists len0 t') (pairdists len0 t).
+Proof. exact reroot_midpoint_dists_refuted. Qed.
+Print Assumptions C05_midpoint_dists_refuted.
+
+(** ... the root can be at an end of the longest path instead of halfway, ... *)
+Theorem C05_midpoint_halfway_refuted :
+  exists t t',
+    wf t = true /\ 3 <= degree t /\ NoDup (leaves t) /\
+    (forall x, In x (bsplits t) -> (0 <= elen (fst (fst x)))%Q) /\
+    reroot_midpoint t = Ok t' /\
+    ~ halfway t t'.
+Proof. exact reroot_midpoint_halfway_refuted. Qed.
+Print Assumptions C05_midpoint_halfway_refuted.
+
+(** ... and when every branch has length 0 the function panics (index -1), mirrored by an error *)
+Theorem C05_midpoint_all_zero_refuted :
+  exists t m,
+    wf t = true /\ 3 <= degree t /\ NoDup (leaves t) /\
+    (forall x, In x (bsplits t) -> (elen (fst (fst x)) == 0)%Q) /\
+    reroot_midpoint t = Err m /\
+    m = "panic: runtime error: index out of range [-1]"%string.
+Proof. exact reroot_midpoint_all_zero_refuted. Qed.
+Print Assumptions C05_midpoint_all_zero_refuted.
+
+(** * the hypotheses are satisfiable and the functions act *)
+Example C05_example_outgroup :
+  wf og_w1 = true /\ 2 <= degree og_w1 /\ rooted og_w1 = false /\ NoDup (leaves og_w1) /\
+  (exists t', reroot_outgroup false true og_w1 ["a"; "b"]%string = Ok t' /\ utree_eqb t' og_w1 = false /\
+              Forall (fun p => (elen (fst p) == 1)%Q /\ (esup (fst p) == 4 # 5)%Q) (kids t')) /\
+  (exists t', reroot_outgroup true true og_w1 ["a"; "b"]%string = Ok t' /\ leaves t' = ["c"; "d"]%string) /\
+  (exists m, reroot_outgroup false true og_w1 ["a"; "c"]%string = Err m) /\
+  (exists t', reroot_outgroup false false og_w1 ["a"; "c"]%string = Ok t') /\
+  (exists m, reroot_outgroup false false og_w1 ["zz"]%string = Err m) /\
+  (exists t', reroot_midpoint og_w1 = Ok t' /\ halfway og_w1 t').
+Proof. exact outgroup_example. Qed.
+Print Assumptions C05_example_outgroup.
